@@ -110,12 +110,21 @@ func ruleLookupTable(c *Ctx) {
 		var consults []consult
 		loopOf := map[*ast.CallExpr]*ast.RangeStmt{}
 		dispatch := map[*ast.CallExpr]bool{} // one consultation call serving several parts chosen beforehand
+		multi := map[*ast.CallExpr]bool{}    // one call of a package helper that consults several parts in order
 		indexed := map[string]bool{}         // recv path (joined) indexed by the token
 		atoiIndexed := map[string]bool{}     // indexed by strconv.Atoi(token) result
 		atoiVars := map[types.Object]bool{}
 		cmpConsts := map[string]bool{}
 		ast.Inspect(fd.Body, func(nd ast.Node) bool {
 			switch x := nd.(type) {
+			case *ast.CallExpr:
+				// <list of receiver parts>.lookup(token): a package function that consults its sources in order
+				if comps, ok := c.multiSourceLookup(x, recv, tok, formats); ok {
+					for _, comp := range comps {
+						consults = append(consults, consult{comp, x, nil, true})
+					}
+					multi[x] = true
+				}
 			case *ast.AssignStmt:
 				if len(x.Rhs) == 1 {
 					if call, ok := x.Rhs[0].(*ast.CallExpr); ok {
@@ -316,6 +325,15 @@ func ruleLookupTable(c *Ctx) {
 			if k == len(consults)-1 {
 				// the last consultation's own results are returned
 				ok := false
+				if multi[cn.call] {
+					// the helper's two results are what the lookup returns
+					ast.Inspect(fd.Body, func(nd ast.Node) bool {
+						if rs, isR := nd.(*ast.ReturnStmt); isR && len(rs.Results) == 1 && unparen(rs.Results[0]) == ast.Expr(cn.call) {
+							ok = true
+						}
+						return true
+					})
+				}
 				ast.Inspect(fd.Body, func(nd ast.Node) bool {
 					rs, isR := nd.(*ast.ReturnStmt)
 					if !isR || rs.Pos() < cn.call.Pos() || len(rs.Results) != 2 {
@@ -631,4 +649,126 @@ func (c *Ctx) rangeOverReceiverParts(fd *ast.FuncDecl, v, recv types.Object) (*a
 		return true
 	})
 	return loop, comps
+}
+
+// multiSourceLookup: the call hands a literal list of parts of the receiver (as receiver or argument) and the
+// token to a package function that consults every element of that list with jsonpointer.GetForToken, letting the
+// not-found case of all but the last fall through. Returns the first path step of each listed part.
+func (c *Ctx) multiSourceLookup(call *ast.CallExpr, recv, tok types.Object, formats []string) ([]string, bool) {
+	g, _ := c.callee(call).(*types.Func)
+	if g == nil || g.Pkg() != c.Types {
+		return nil, false
+	}
+	gfd := c.decl(g)
+	if gfd == nil || gfd.Body == nil {
+		return nil, false
+	}
+	// the list literal and the token among receiver / arguments
+	var list *ast.CompositeLit
+	var listObj, tokObj types.Object
+	bind := func(e ast.Expr, o types.Object) {
+		if o == nil || e == nil {
+			return
+		}
+		if lit, ok := unparen(e).(*ast.CompositeLit); ok {
+			switch c.typeOf(lit).Underlying().(type) {
+			case *types.Slice, *types.Array:
+				list, listObj = lit, o
+			}
+		}
+		if id, ok := unparen(e).(*ast.Ident); ok && c.objOf(id) == tok {
+			tokObj = o
+		}
+	}
+	if se, ok := unparen(call.Fun).(*ast.SelectorExpr); ok && gfd.Recv != nil {
+		bind(se.X, c.recvObj(gfd))
+	}
+	for i, a := range call.Args {
+		bind(a, c.paramObj(gfd, i))
+	}
+	if list == nil || tokObj == nil {
+		return nil, false
+	}
+	var comps []string
+	for _, el := range list.Elts {
+		p, ok := c.apath(el)
+		if !ok || p.Root != recv || len(p.Steps) == 0 {
+			return nil, false
+		}
+		comps = append(comps, p.Steps[0])
+	}
+	// every consultation in the helper is on an element of the list with the token
+	fromList := func(e ast.Expr) bool {
+		switch x := unparen(e).(type) {
+		case *ast.IndexExpr:
+			id, ok := unparen(x.X).(*ast.Ident)
+			return ok && c.objOf(id) == listObj
+		case *ast.Ident:
+			okv := false
+			ast.Inspect(gfd.Body, func(n ast.Node) bool {
+				rs, ok := n.(*ast.RangeStmt)
+				if !ok || rs.Value == nil {
+					return true
+				}
+				if v, ok := rs.Value.(*ast.Ident); ok && c.objOf(v) == c.objOf(x) {
+					src := unparen(rs.X)
+					if sl, ok := src.(*ast.SliceExpr); ok {
+						src = unparen(sl.X)
+					}
+					if id, ok := src.(*ast.Ident); ok && c.objOf(id) == listObj {
+						okv = true
+					}
+				}
+				return true
+			})
+			return okv
+		}
+		return false
+	}
+	nconsult, good := 0, true
+	ast.Inspect(gfd.Body, func(n ast.Node) bool {
+		cc, ok := n.(*ast.CallExpr)
+		if !ok || !c.isPkgFunc(cc, "github.com/go-openapi/jsonpointer", "GetForToken") || len(cc.Args) != 2 {
+			return true
+		}
+		nconsult++
+		tid, ok := unparen(cc.Args[1]).(*ast.Ident)
+		if !ok || c.objOf(tid) != tokObj || !fromList(cc.Args[0]) {
+			good = false
+		}
+		return true
+	})
+	if nconsult == 0 || !good {
+		return nil, false
+	}
+	// inside a loop of the helper, an error is only returned under the negated not-found test
+	ast.Inspect(gfd.Body, func(n ast.Node) bool {
+		rs, ok := n.(*ast.RangeStmt)
+		if !ok {
+			return true
+		}
+		ast.Inspect(rs.Body, func(m ast.Node) bool {
+			ret, ok := m.(*ast.ReturnStmt)
+			if !ok || len(ret.Results) == 0 || isNilIdent(c, ret.Results[len(ret.Results)-1]) {
+				return true
+			}
+			filtered := false
+			for _, cl := range c.literalsAt(gfd, ret) {
+				if cst, neg := c.notFoundTest(cl.e); cst != "" && neg != cl.neg {
+					for _, f := range formats {
+						if strings.HasPrefix(f, cst) {
+							filtered = true
+						}
+					}
+				}
+			}
+			if !filtered {
+				good = false
+			}
+			return true
+		})
+		return true
+	})
+	c.saw(c.funcName(gfd))
+	return comps, good
 }
